@@ -9,8 +9,6 @@ import (
 )
 
 func rename(from, to string) sys.Errno {
-	if from == to {
-		return 0
-	}
+	// Note: no shortcut for from == to: the kernel treats it as a no-op only when the path exists (else ENOENT).
 	return sys.UnwrapOSError(syscall.Rename(from, to))
 }
